@@ -69,9 +69,14 @@ func Getenv(k string) string            { return realos.Getenv(k) }
 func LookupEnv(k string) (string, bool) { return realos.LookupEnv(k) }
 func Exit(code int)                     { realos.Exit(code) }
 func Getpid() int                       { return 1 }
-func Getwd() (string, error)            { return "/", nil }
-func TempDir() string                   { return "/tmp" }
-func IsPathSeparator(c uint8) bool      { return c == '/' }
+func Getwd() (string, error) {
+	if cur != nil && cur.cwd != "" {
+		return cur.cwd, nil
+	}
+	return "/", nil
+}
+func TempDir() string              { return "/tmp" }
+func IsPathSeparator(c uint8) bool { return c == '/' }
 func SameFile(a, b FileInfo) bool {
 	x, ok1 := a.(fileInfo)
 	y, ok2 := b.(fileInfo)
